@@ -18,6 +18,9 @@ CHECKS = {
 
  'C05': ('Q1 invariants over all feasible x against physical charge/discharge/level terms defined from the variables\' meaning; reporting identities through the real extract_output / Storage.fill_level', '6 C05',
          'For every storage configuration of the catalogue (one/two nodes, efficiency, inflow, windows, 30-min/day-unit grid, no_simult_in_out, max_store_duration, block_size, coarse freq) embedded in a portfolio: level bounds, end level, rates, no-simultaneous, holding-time windows and truthful reporting hold for ALL feasible points and all parameter values; one open known finding (KF-C05-msd) is enforced outside its trigger region.'),
+
+ 'C06': ('Q4 (exists/forall) projection of the real rows onto the on/off booleans vs a docstring Spec, both directions; Q1 invariants for capacity/ramp/profile/heat/fuel/start flags over all feasible points', '6 C06',
+         'The admissible on/off patterns are decided to be EXACTLY those of the runtime/downtime/initial-state specification for all 2^T patterns symbolically (T<=7) and all capacities; capacity, ramp (incl. first step), profile, heat-share, start-flag and fuel-reporting statements hold for all feasible points and all symbolic parameters.'),
 }
 NA = {}
 props = [json.loads(l) for l in open(os.path.join(ROOT, 'properties.jsonl'))]
